@@ -958,7 +958,9 @@ Proof. intros L o. destruct o; reflexivity. Qed.
 Lemma check_from_allowed : forall h nser i L, check_from false 0 nser i L h = None -> allowed_from L (map fst h) = true.
 Proof.
   induction h as [| [o ob] h IH]; intros nser i L H; cbn [map fst allowed_from]; auto.
-  cbn [check_from] in H. rewrite step2_repaired in H.
+  cbn [check_from] in H.
+  assert (SO : step_obs false 0 nser L o (o_dump ob) = step false L o) by (destruct o; reflexivity).
+  rewrite SO in H. clear SO.
   destruct (op_ok L o && write_ok o) eqn:E1; cbn [negb] in H; [| discriminate].
   destruct (layout_ok (step false L o)) eqn:E2; cbn [negb] in H; [| discriminate].
   cbn [andb].
